@@ -130,6 +130,12 @@ Example concat_axis1_ex :
                       (TList None None tint, [VList [i64 9]; VList [i64 8; i64 7]])] =
   Ok (VList [VList [i64 1; i64 2; i64 9]; VList [i64 8; i64 7]]).
 Proof. reflexivity. Qed.
+(* ... so the length of every output list is the sum of the lengths of the input lists *)
+Theorem concat_axis1_lengths : forall (xs ys : list (list value)),
+  map (fun p : list value * list value => zlen (fst p ++ snd p)) (zip xs ys) =
+  map (fun p : list value * list value => zlen (fst p) + zlen (snd p)) (zip xs ys).
+Proof. exact concat_axis1_lengths. Qed.
+Print Assumptions concat_axis1_lengths.
 (* arrays of different lengths cannot be concatenated along axis 1 *)
 Example concat_axis1_mismatch_ex :
   spec_concat_axis 1 [(TList None None tint, [VList [i64 1]; VList []; VList []]);
@@ -160,6 +166,17 @@ Theorem mask_exact : forall vw ta (xs : list value) (ms : list bool),
   Ok (VList (map (fun p : value * bool => if Bool.eqb (snd p) vw then fst p else VNone) (zip xs ms))).
 Proof. exact mask_exact_lemma. Qed.
 Print Assumptions mask_exact.
+(* a mask with the structure of the array (lists of booleans of the same lengths) *)
+Theorem mask_exact_lists : forall vw ta' (xss : list (list value)) (mss : list (list bool)),
+  has_union ta' = false ->
+  Forall2 (fun xs ms => length xs = length ms) xss mss ->
+  spec_mask vw (TList None None ta') (map VList xss) (TList None None (TNum DBool))
+            (map (fun ms => VList (map VBool ms)) mss) =
+  Ok (VList (map (fun p : list value * list bool =>
+                    VList (map (fun q : value * bool => if Bool.eqb (snd q) vw then fst q else VNone) (zip (fst p) (snd p))))
+                 (zip xss mss))).
+Proof. exact mask_exact_lists_lemma. Qed.
+Print Assumptions mask_exact_lists.
 Example mask_ex :
   spec_mask true (TList None None tint) [VList [i64 1]; VList []; VList [i64 2]]
             (TNum DBool) [VBool true; VBool false; VBool true] = Ok (VList [VList [i64 1]; VNone; VList [i64 2]]) /\
@@ -208,6 +225,17 @@ Theorem unzip_zip_partial : forall n (fields : option (list name)) (arrs : list 
   spec_unzip_zip (Some 1) fields arrs = Ok (VTup (map (fun a : arr => VList (snd a)) arrs)).
 Proof. exact unzip_zip_partial_lemma. Qed.
 Print Assumptions unzip_zip_partial.
+(* ... and for fields that are lists of leaves with equal list lengths row by row, where zip goes one level down
+   and builds one record per element (depth_limit=None).  [aligned_row]: the k lists of a row have one length. *)
+Theorem unzip_zip_lists : forall n (fields : option (list name)) (arrs : list arr),
+  arrs <> [] ->
+  all_len n (map snd arrs) ->
+  Forall leaf_list_ty (map fst arrs) ->
+  fields_ok (zlen arrs) fields = true ->
+  Forall aligned_row (transpose_n n (map snd arrs)) ->
+  spec_unzip_zip None fields arrs = Ok (VTup (map (fun a : arr => VList (snd a)) arrs)).
+Proof. exact unzip_zip_lists_lemma. Qed.
+Print Assumptions unzip_zip_lists.
 Example unzip_zip_ex :
   spec_unzip_zip None (Some [[120]; [121]])
     [(TList None None tint, [VList [i64 1; i64 2]; VList []]); (TList None None tint, [VList [i64 5; i64 6]; VList []])]
@@ -244,6 +272,21 @@ Theorem with_field_preserves_shape : forall k ks ts tw (rows : list (list (name 
   Forall (fun v => exists fs, v = VRec fs /\ map fst fs = remove_name k ks ++ [k]) out.
 Proof. exact with_field_preserves_shape_lemma. Qed.
 Print Assumptions with_field_preserves_shape.
+(* with_field on an array of LISTS of records keeps the enclosing list structure: same number of lists, every list
+   keeps its length, record (i, j) gets what[i][j] as field k, its other fields stay *)
+Theorem with_field_preserves_lists : forall k ks ts tw
+        (rows : list (list (list (name * value)))) (wss : list (list value)),
+  existsb has_union ts = false -> has_union tw = false ->
+  Forall (records_of ks) rows -> zlen ts = zlen ks ->
+  Forall2 (fun fss ws => length fss = length ws) rows wss ->
+  spec_with_field [k] (TList None None (TRec (Some ks) ts)) (map (fun fss => VList (map VRec fss)) rows)
+                  (WArr (TList None None tw) (map VList wss)) =
+  Ok (VList (map (fun p : list (list (name * value)) * list value =>
+                    VList (map (fun q : list (name * value) * value => VRec (remove_key k (fst q) ++ [(k, snd q)]))
+                               (zip (fst p) (snd p))))
+                 (zip rows wss))).
+Proof. exact with_field_preserves_lists_lemma. Qed.
+Print Assumptions with_field_preserves_lists.
 Example with_field_ex :
   spec_with_field [[121]] (TList None None (TRec (Some [[120]; [121]]) [tint; tint]))
      [VList [VRec [([120], i64 1); ([121], i64 0)]; VRec [([120], i64 2); ([121], i64 0)]]; VList []]
